@@ -311,6 +311,16 @@ func c11exec(c *h.Ctx, cs *h.Case) {
 				cs.Impl = append(cs.Impl, "disabled")
 				return true
 			}
+			if ok && ov.VerifInstanceState(tok) == "done" && fix.RecOf(tok) != nil {
+				// Done() once more on a finished instance: nothing may change
+				before := ov.VerifTreeState(tree.ID)
+				fix.RecOf(tok).Tni.Done()
+				if after := ov.VerifTreeState(tree.ID); after != before {
+					cs.Fail("repeated-done-changed-tree", fmt.Sprintf("a second Done() of the finished instance %d changed the tree from %s to %s", k, before, after))
+				}
+				cs.Impl = append(cs.Impl, obs())
+				return true
+			}
 			if !ok || ov.VerifInstanceState(tok) != "live" || fix.RecOf(tok) == nil {
 				cs.Impl = append(cs.Impl, "disabled")
 				return true
@@ -324,6 +334,45 @@ func c11exec(c *h.Ctx, cs *h.Case) {
 			mu.Lock()
 			doneReturned[k] = strict
 			mu.Unlock()
+			cs.Impl = append(cs.Impl, obs())
+		case len(tk) == 4 && tk[1] == "donecb" && (tk[3] == "0" || tk[3] == "1"):
+			// Done() of an instance that has an OnDoneCallback: `0` = the callback says "not yet" (nothing may
+			// happen), `1` = it agrees (as `done`)
+			k, _ := strconv.Atoi(tk[2])
+			tok, ok := tokens[k]
+			agree := tk[3] == "1"
+			if ok && agree && ov.VerifInstanceState(tok) == "done" && fix.RecOf(tok) != nil {
+				// the callback agrees, the instance is finished already: a repeated Done()
+				tni := fix.RecOf(tok).Tni
+				tni.OnDoneCallback(func() bool { return true })
+				tni.Done()
+				tni.OnDoneCallback(nil)
+				cs.Impl = append(cs.Impl, obs())
+				return true
+			}
+			if _, running := inCtor[k]; running || !ok || ov.VerifInstanceState(tok) != "live" || fix.RecOf(tok) == nil {
+				cs.Impl = append(cs.Impl, "disabled")
+				return true
+			}
+			called := 0
+			tni := fix.RecOf(tok).Tni
+			tni.OnDoneCallback(func() bool { called++; return agree })
+			mu.Lock()
+			strict := atGate[k] > 0
+			mu.Unlock()
+			tni.Done()
+			tni.OnDoneCallback(nil)
+			if called != 1 {
+				cs.Fail("done-callback-not-asked", fmt.Sprintf("Done() of instance %d asked its callback %d times", k, called))
+			}
+			if !agree && ov.VerifInstanceState(tok) != "live" {
+				cs.Fail("done-despite-callback", fmt.Sprintf("instance %d is %s although its OnDoneCallback answered false", k, ov.VerifInstanceState(tok)))
+			}
+			if agree {
+				mu.Lock()
+				doneReturned[k] = strict
+				mu.Unlock()
+			}
 			cs.Impl = append(cs.Impl, obs())
 		case len(tk) == 3 && tk[1] == "hold":
 			// from now on every handler of instance k blocks until `release k` lets one return
@@ -472,6 +521,10 @@ func c11gen(c *h.Ctx, yield func(*h.Case)) {
 	// the instance finishes inside the handler of a message that has others queued behind it: they are dropped
 	yield(&h.Case{Class: "corpus-done-with-backlog", Ops: []string{"c11 localstart 1", "c11 hold 2", "c11 arrive 2 5", "c11 thread 2 5", "c11 arrive 2 6", "c11 thread 2 6",
 		"c11 arrive 2 7", "c11 thread 2 7", "c11 arrive 2 8", "c11 thread 2 8", "c11 release 2", "c11 done 2", "c11 release 2", "c11 release 2", "c11 release 2"}})
+	// two runs share the tree: a refused Done(), a real one, a repeated one; the other run goes on and a peer still
+	// gets the tree; after the last one the peer is served during the grace period only
+	yield(&h.Case{Class: "corpus-others-unaffected", Ops: []string{"c11 localstart 1", "c11 arrive 2 5", "c11 thread 2 5", "c11 donecb 1 0", "c11 peerreq", "c11 donecb 1 1",
+		"c11 done 1", "c11 peerreq", "c11 arrive 2 6", "c11 thread 2 6", "c11 arrive 1 7", "c11 thread 1 7", "c11 done 1", "c11 wait", "c11 peerreq", "c11 done 2", "c11 done 2", "c11 peerreq", "c11 wait", "c11 peerreq", "c11 done 2"}})
 	for n := 0; n < c.Pick(28, 400); n++ {
 		cs := &h.Case{Class: "random"}
 		m := 0
@@ -522,7 +575,15 @@ func c11gen(c *h.Ctx, yield func(*h.Case)) {
 				cs.Ops = append(cs.Ops, fmt.Sprintf("c11 ctorret %d", ctor))
 				ctor = 0
 			case x < 11 && len(known) > 0:
-				cs.Ops = append(cs.Ops, fmt.Sprintf("c11 done %d", known[r.Intn(len(known))]))
+				switch r.Intn(5) {
+				case 0:
+					cs.Ops = append(cs.Ops, fmt.Sprintf("c11 donecb %d 0", known[r.Intn(len(known))]))
+					c.Count("op=donecb0")
+				case 1:
+					cs.Ops = append(cs.Ops, fmt.Sprintf("c11 donecb %d 1", known[r.Intn(len(known))]))
+				default:
+					cs.Ops = append(cs.Ops, fmt.Sprintf("c11 done %d", known[r.Intn(len(known))]))
+				}
 			case x == 11 && r.Intn(2) == 0:
 				cs.Ops = append(cs.Ops, "c11 peerreq")
 			case waits < 2 && len(pending) == 0:
